@@ -161,7 +161,8 @@ Theorem unsound_stream_refuted :
 Proof. exact unsound_stream_witness. Qed.
 Print Assumptions unsound_stream_refuted.
 
-(* Workflow field mappings (ToField / MapFields / FromField between strings and flat maps):
+(* Workflow field mappings (ToField / MapFields / FromField; the mapped value is a string, a
+   whole map, or a field that holds a nested map):
    the stream form (chunk-wise; a chunk that lacks a key maps nothing, an empty mapping
    result becomes the zero value of the input type) against the value form, when every key
    the mapping reads is carried by the concatenated input (the other case is F-C04c) and
@@ -174,15 +175,20 @@ Theorem concat_fieldMap :
 Proof. exact concat_fieldMap_lem. Qed.
 Print Assumptions concat_fieldMap.
 
+(* the field 0 holds a string, the field 1 a nested map that arrives in two chunks *)
 Example concat_fieldMap_nonvacuous :
   let f := FTo [(Some 0%N, 5%N); (Some 1%N, 6%N)] in
-  let s := [Val (VM [(kstr 0, "a"%string)]); Val (VM [(kstr 1, "x"%string)]); Val (VM [(kstr 0, "b"%string)])] in
+  let s := [Val (VM [(kstr 0, "a"%string); ((1%N, KMap), ""%string); ((1%N, KSub 2 KStr), "x"%string)]);
+            Val (VM [((1%N, KMap), ""%string); ((1%N, KSub 3 KStr), "y"%string)]);
+            Val (VM [(kstr 0, "b"%string)])] in
+  let r := VM [(kstr 5, "ab"%string); ((6%N, KMap), ""%string); ((6%N, KSub 2 KStr), "x"%string); ((6%N, KSub 3 KStr), "y"%string)] in
   fmap_wf f = true
+  /\ sound s
   /\ (forall x, vsconcat s = Ok x -> fmap_dom f x = true)
-  /\ vsconcat (s_fmap f s) = Ok (VM [(kstr 5, "ab"%string); (kstr 6, "x"%string)])
-  /\ res_bind (vsconcat s) (v_fmap f) = Ok (VM [(kstr 5, "ab"%string); (kstr 6, "x"%string)]).
+  /\ vsconcat (s_fmap f s) = Ok r
+  /\ res_bind (vsconcat s) (v_fmap f) = Ok r.
 Proof.
-  cbv zeta. split; [reflexivity|]. split; [|split; reflexivity].
+  cbv zeta. split; [reflexivity|]. split; [right; eexists; reflexivity|]. split; [|split; reflexivity].
   intros x H. vm_compute in H. inversion H. reflexivity.
 Qed.
 
@@ -346,8 +352,8 @@ Print Assumptions fieldmap_missing_refuted.
 
 Theorem fieldMap_missing_key :
   forall (a : N) (ms : list amap), ms <> [] -> mok ms = true -> mhas (kstr a) (mval ms) = false ->
-    res_bind (vsconcat (sVM ms)) (v_fmap (FTake a)) = Err e_nokey
-    /\ vsconcat (s_fmap (FTake a) (sVM ms)) = Ok (VS EmptyString).
+    res_bind (vsconcat (sVM ms)) (v_fmap (FTake a false)) = Err e_nokey
+    /\ vsconcat (s_fmap (FTake a false) (sVM ms)) = Ok (VS EmptyString).
 Proof. exact fieldMap_missing_lem. Qed.
 Print Assumptions fieldMap_missing_key.
 
@@ -401,3 +407,14 @@ Example agree_nonvacuous_nested :
   /\ vsconcatR (g_transform seq_mrg (compile_sprog nested_prog) (map Val [VS "a"%string; VS "b"%string]))
      = g_invoke (compile_sprog nested_prog) (VS "ab"%string).
 Proof. exact nested_prog_in_domain. Qed.
+
+(* non-vacuity with field mappings over nested maps: MapFields from a field that holds a map
+   (fragments in two chunks), ToField of a whole map, FromField of a nested map *)
+Example agree_nonvacuous_workflow_nested :
+  sprog_wf wfn_prog = true
+  /\ dom_ok (compile_sprog wfn_prog) (VS "ab"%string) = true
+  /\ g_invoke (compile_sprog wfn_prog) (VS "ab"%string)
+     = Ok (VS "n5{ak=n4{ah=n3{af/;af.ac=n1<ab;af.ad=ab>;ag/;ag.ai=n2<ab;ag.aj=ab>;};};}"%string)
+  /\ vsconcatR (g_transform seq_mrg (compile_sprog wfn_prog) (map Val [VS "a"%string; VS "b"%string]))
+     = g_invoke (compile_sprog wfn_prog) (VS "ab"%string).
+Proof. exact wfn_prog_in_domain. Qed.
